@@ -300,6 +300,60 @@ def decodedOf (vs : List Variant) (m : SMsg) : Decoded :=
   | some d => .ok d
   | none => .err
 
+/-! ### the message loop around `handle_message` (wave 2): failure is a real branch
+
+`Actor::process_message` / `handle_message` (ractor/src/actor.rs, feature `cluster`):
+
+* `msg.serialized_msg.is_some()`: `catch_unwind(from_boxed(msg))` — `Ok(Ok(m))` ⇒ `handle(m)`;
+  `Ok(Err(_))` and `Err(_)` ⇒ `return Ok(())`: the loop goes on;
+* otherwise (a LOCAL message): `from_boxed(msg)?` — an `Err` is returned by `handle_message`, a
+  panic unwinds: either way the message loop ends with `ActorErr::Failed` (the actor fails);
+* `handle(..)` returning `Err` or panicking ends the loop as well.
+
+So in this model `running` CAN become false, and the theorem that undecodable serialized messages
+never do that is a statement about one branch of two. -/
+
+/-- what `handle` did with a decoded message -/
+inductive HRes where
+  | ok
+  | err
+  | panic
+  deriving Repr, DecidableEq
+
+/-- one message taken from the mailbox -/
+structure Inbox where
+  /-- `serialized_msg.is_some()` -/
+  serialized : Bool
+  msg : SMsg
+  /-- what `from_boxed` does with it -/
+  dec : Decoded
+  /-- what `handle` would do with the decoded message -/
+  hres : HRes
+
+def dropPort (st : ActorSt) (m : SMsg) : ActorSt :=
+  { st with droppedPorts := st.droppedPorts + (if m.isCall then 1 else 0) }
+
+/-- one round of the message loop -/
+def processMessage (st : ActorSt) (x : Inbox) : ActorSt :=
+  if !st.running then st
+  else
+    match x.dec with
+    | .ok d =>
+      let st := { dropPort st x.msg with handled := st.handled ++ [d] }
+      match x.hres with
+      | .ok => st
+      | _ => { st with running := false }          -- `handle` failed: `ActorErr::Failed`
+    | _ =>
+      if x.serialized then dropPort st x.msg       -- `return Ok(())`
+      else { dropPort st x.msg with running := false }   -- `from_boxed(msg)?` / unwinding
+
+def messageLoop (st : ActorSt) (xs : List Inbox) : ActorSt := xs.foldl processMessage st
+
+def Inbox.decoded (x : Inbox) : Option (String × List Val) :=
+  match x.dec with
+  | .ok d => some d
+  | _ => none
+
 /-! ## Frames -/
 
 /-- `FRAME_READ_CHUNK_SIZE` -/
